@@ -11,11 +11,17 @@ EmitBehaviour ==
 \* mentions a variable so that TLC does not evaluate the draw once as a constant expression
 Rnd(S) == RandomElement({x \in S : Len(hist) >= 0})
 SimNext ==
-    \/ \E w \in 1..3 : Send(Rnd(Ids), Rnd(Tos))
+    \/ \E i \in Ids : Send(i, Rnd(Tos), Rnd({c \in CidChoices(i) : IsDup(c) => req[DupOf(c)].st = "Out"}))
+    \/ \E i \in Ids : \E j \in Pending \ {i} : ("dup" \in Cids /\ Send(i, Rnd(Tos), "dup-" \o j))
     \/ \E w \in 1..4 : \E i \in Ids : Recv(i, Rnd(Types), Rnd(RFroms))
     \/ \E w \in 1..2 : \E i \in Pending : Recv(i, Rnd({"result", "error"}), Rnd({"exact", "absent"}))
     \/ \E k \in OpenKinds : Open(k)
     \/ \E k \in {"cut", "user"} : Close(k)
     \/ (Len(hist) > 6 /\ Destroy)
 SimSpec == Init /\ [][SimNext]_vars
+
+\* all-paths set for the id rule (IqTrackerGenIds.cfg): one session, sends and replies only
+IdsBound == /\ Bound
+            /\ \A k \in 1..Len(hist) : hist[k].a \in {"Open", "Send", "Recv"}
+            /\ (Len(hist) >= 1 => hist[1].a = "Open")
 =============================================================================
